@@ -80,7 +80,7 @@ fn gen_program(r: &mut Rng) -> (Dec, Vec<Step>) {
     let mut m = init.clone();
     let mut history: Vec<Dec> = vec![];
     for _ in 0..len {
-        let big = ndigits(&m.n) > 1500 || m.s.abs() > 3000;
+        let big = ndigits(&m.n) > 1500 || m.s.unsigned_abs() > 3000;
         let op = match r.below(20) {
             0..=3 => "add", 4..=6 => "sub", 7..=8 => if big { "add" } else { "mul" },
             9 => "neg", 10 => "abs", 11 => "double", 12 => "half", 13 => if big { "neg" } else { "square" },
